@@ -208,8 +208,10 @@ def _gen_plan(rng):
         return {"stdout": "unknown", "result_file": "garbage"}
     if r < 0.50:
         return {"stdout": "nonascii"}
-    if r < 0.58:
+    if r < 0.55:
         return {"result_file": "missing", "stdout": "empty"}
+    if r < 0.58:
+        return {"result_file": "deleted", "stdout": "empty"}
     if r < 0.70:
         # not a failure at all: the solver answers as soon as it meets an
         # empty clause and exits without reading the rest of its input
@@ -538,7 +540,7 @@ def _one_call(case, ctx, F, c, ci, route, plan, tmp, ref_verdict, clauses, n,
     # ---- fault plans on the peer -----------------------------------------
     fkind = plan.get("result_file") if conv == "filein_fileout" \
         else plan.get("stdout")
-    if fkind in ("empty", "garbage", "unknown", "missing"):
+    if fkind in ("empty", "garbage", "unknown", "missing", "deleted"):
         if res[0] == "ok":
             bad("verdict-from-failing-solver", "solver gave no answer (%s)"
                 % fkind)
@@ -569,7 +571,20 @@ def _one_call(case, ctx, F, c, ci, route, plan, tmp, ref_verdict, clauses, n,
                     (k, len(full), prefix[-40:]))
             ctx.probe("died after complete answer line")
             _check_verdict_only(res, c, ref_verdict, bad)
+            _check_witness_if_any(res, c, rec, clauses, n, bad)
             return None
+
+    # ---- a solver that gives the verdict but no model ---------------------
+    if case["installed"][name].get("shape", {}).get("no_model") and \
+            rec.get("verdict"):
+        ctx.fault("solver_prints_no_model")
+        if res[0] == "exc":
+            if not _is_runtime_error(res[1]):
+                bad_exc("failing-solver-not-RuntimeError", res[1])
+            return None
+        _check_verdict_only(res, c, ref_verdict, bad)
+        _check_witness_if_any(res, c, rec, clauses, n, bad)
+        return None
 
     # ---- well-behaved solver ---------------------------------------------
     if res[0] == "exc":
@@ -610,6 +625,21 @@ def _is_runtime_error(e):
     not the interpreter's own RecursionError / NotImplementedError)."""
     return isinstance(e, RuntimeError) and not isinstance(
         e, (RecursionError, NotImplementedError))
+
+
+def _check_witness_if_any(res, c, rec, clauses, n, bad):
+    """A verdict may survive the death of the solver, a witness only if it
+    is the complete assignment the solver printed."""
+    val = res[1]
+    if c["method"] == "is_satisfiable" or not (
+            isinstance(val, tuple) and len(val) == 2 and val[0] is True):
+        return
+    A = val[1]
+    if not isinstance(A, list) or [abs(x) for x in A] != list(
+            range(1, n + 1)) or not cnfref.satisfies(clauses, A):
+        bad("incomplete-witness-returned", "the solver did not deliver a "
+            "complete model, yet solve() returned the assignment %r for a "
+            "formula with %d variables" % (A, n))
 
 
 def _check_verdict_only(res, c, ref_verdict, bad):
